@@ -4,7 +4,7 @@ use crate::rt::*;
 use crate::util::*;
 use crate::Case;
 use linfa::prelude::*;
-use linfa::traits::{Fit, Predict, Transformer};
+use linfa::traits::{Fit, FitWith, Predict, Transformer};
 use linfa::{DatasetBase, ParamGuard};
 use linfa_clustering::{
     Dbscan, GaussianMixtureModel, GmmInitMethod, KMeans, KMeansInit, Optics, OpticsAnalysis,
@@ -25,6 +25,10 @@ pub const REQUIRED: &[&str] = &[
     "DbscanValidParams",
     "OpticsParams",
     "OpticsAnalysis",
+    "precomputed_centroids_column_major",
+    "kmeans_incremental_model",
+    "incremental_model_column_major",
+    "shape_fewer_samples_than_features",
 ];
 
 pub trait Dist<F: linfa::Float>: Distance<F> + Serialize + DeserializeOwned + PartialEq + std::fmt::Debug + Clone + 'static {}
@@ -71,6 +75,10 @@ macro_rules! with_dist_nn {
 pub fn check(c: &Case, obs: &mut Obs) {
     obs.class_if(c.f32, "f32");
     obs.class_if(!c.f32, "f64");
+    let c = &shape_variant(c, obs);
+    if c.x.is_empty() {
+        return obs.skip("no_rows");
+    }
     if c.f32 {
         run::<f32>(c, obs)
     } else {
@@ -100,11 +108,18 @@ fn run<F: LF>(c: &Case, obs: &mut Obs) {
     }
 }
 
-fn init_method<F: LF>(k: &mut Knobs, x: &Array2<F>, nc: usize, with_para: bool) -> KMeansInit<F> {
-    match k.pick(if with_para { 4 } else { 3 }) {
+fn init_method<F: LF>(k: &mut Knobs, obs: &mut Obs, x: &Array2<F>, nc: usize, with_para: bool) -> KMeansInit<F> {
+    match k.pick(if with_para { 5 } else { 4 }) {
         0 => KMeansInit::KMeansPlusPlus,
         1 => KMeansInit::Random,
-        2 => KMeansInit::Precomputed(x.slice(ndarray::s![..nc.min(x.nrows()), ..]).to_owned()),
+        2 | 3 => {
+            // the user's array is stored as it is: vary its memory layout (serde restores row-major)
+            let layout = k.pick(3);
+            let a = x.slice(ndarray::s![..nc.min(x.nrows()), ..]).to_owned();
+            obs.class("kmeans_precomputed_init");
+            obs.class_if(layout > 0 && a.nrows() > 1 && a.ncols() > 1, "precomputed_centroids_column_major");
+            KMeansInit::Precomputed(relayout(&a, layout))
+        }
         _ => KMeansInit::KMeansPara,
     }
 }
@@ -113,20 +128,59 @@ fn kmeans_fitted<F: LF, D: Dist<F>>(c: &Case, obs: &mut Obs, k: &mut Knobs, dist
     const T: &str = "KMeans";
     let x: Array2<F> = mat(&c.x);
     let nc = 1 + k.pick(3.min(x.nrows()));
-    let init = init_method(k, &x, nc, false);
+    let init = init_method(k, obs, &x, nc, false);
     let params = KMeans::params_with(nc, SerRng::new(c.seed), dist)
         .n_runs(1 + k.pick(2))
         .max_n_iterations(1 + k.pick(20) as u64)
         .tolerance(F::of(1e-3))
         .init_method(init);
     let ds = DatasetBase::from(x.clone());
-    let model = match vengine::guard(|| params.fit(&ds)) {
-        Ok(Ok(m)) => m,
-        _ => return obs.skip("fit_failed"),
+    // batch fit, or the incremental path (`fit_with`, one or two batches), whose model keeps the initial centroids' layout
+    let incremental = k.pick(3) == 2;
+    let model = if incremental {
+        let valid = match params.check_ref() {
+            Ok(v) => v,
+            Err(_) => return obs.skip("params_invalid"),
+        };
+        let step = |m: Option<KMeans<F, D>>| match vengine::guard(|| valid.fit_with(m, &ds)) {
+            Ok(Ok(m)) => Some(m),
+            Ok(Err(linfa_clustering::IncrKMeansError::NotConverged(m))) => Some(m),
+            _ => None,
+        };
+        let first = match step(None) {
+            Some(m) => m,
+            None => return obs.skip("fit_failed"),
+        };
+        if k.flag() {
+            match step(Some(first.clone())) {
+                Some(m) => m,
+                None => first,
+            }
+        } else {
+            first
+        }
+    } else {
+        match vengine::guard(|| params.fit(&ds)) {
+            Ok(Ok(m)) => m,
+            _ => return obs.skip("fit_failed"),
+        }
     };
     obs.class(T);
+    obs.class_if(incremental, "kmeans_incremental_model");
+    obs.class_if(incremental && !model.centroids().is_standard_layout(), "incremental_model_column_major");
     obs.nontrivial();
     obs.class_if(nc == 1, "single_cluster");
+    // one more incremental step from the restored model must end where the original ends
+    let next = |m: &KMeans<F, D>| -> Option<(Array2<F>, ndarray::Array1<F>, F)> {
+        let valid = params.check_ref().ok()?;
+        let r = match valid.fit_with(Some(m.clone()), &ds) {
+            Ok(m) => m,
+            Err(linfa_clustering::IncrKMeansError::NotConverged(m)) => m,
+            Err(_) => return None,
+        };
+        Some((r.centroids().clone(), r.cluster_count().clone(), r.inertia()))
+    };
+    let want_next = observe(|| next(&model));
     let q: Array2<F> = mat(&with_fixed_queries(&c.q, x.ncols()));
     let want_pred = observe(|| model.predict(&q));
     let want_tr = observe(|| model.transform(&q));
@@ -139,6 +193,11 @@ fn kmeans_fitted<F: LF, D: Dist<F>>(c: &Case, obs: &mut Obs, k: &mut Knobs, dist
         same_behaviour(obs, T, fmt, "predict", &want_pred, || back.predict(&q), |a, b| same_arr(a, b));
         same_behaviour(obs, T, fmt, "transform", &want_tr, || back.transform(&q), |a, b| same_arr(a, b));
         same_behaviour(obs, T, fmt, "predict-one", &want_one, || back.predict(&q.row(0)), |a, b| a == b);
+        same_behaviour(obs, T, fmt, "next-incremental-step", &want_next, || next(&back), |a, b| match (a, b) {
+            (Some(a), Some(b)) => same_arr(&a.0, &b.0) && same_arr(&a.1, &b.1) && same(a.2, b.2),
+            (None, None) => true,
+            _ => false,
+        });
     }
 }
 
@@ -146,7 +205,7 @@ fn kmeans_params<F: LF, D: Dist<F>>(c: &Case, obs: &mut Obs, k: &mut Knobs, dist
     const T: &str = "KMeansParams";
     let x: Array2<F> = mat(&c.x);
     let nc = k.pick(4);
-    let init = init_method(k, &x, nc.max(1), true);
+    let init = init_method(k, obs, &x, nc.max(1), true);
     let refit_ok = !matches!(init, KMeansInit::KMeansPara);
     let params = KMeans::params_with(nc, SerRng::new(c.seed), dist)
         .n_runs(k.pick(3))
